@@ -119,4 +119,21 @@ theorem ngbAxis_mutual (periodic : Bool) (n i j : Int) (up : Bool) (hi : 0 ≤ i
     if_true, if_false, ite_true, ite_false] at h ⊢ <;> split_ifs at h ⊢ <;>
     first | (simp at h; omega) | (simp at h ⊢; omega) | (simp at h) | omega
 
+/-! ### the clamp of `get_cell_indices` (every numeric type) -/
+section clamp
+variable {α : Type} [LE α] [DecidableLE α]
+
+theorem clampTop_inactive (n i : Int) (p top : α) (h : i < n) : clampTop n i p top = i := by
+  unfold clampTop; rw [if_neg]; intro hc; omega
+
+/-- whatever the rounding of the product was: a raw index in `[0, n]` of a position not above the
+top face becomes an index of an existing cell -/
+theorem clampTop_range (n i : Int) (p top : α) (hn : 0 < n) (h0 : 0 ≤ i) (h1 : i ≤ n) (hp : p ≤ top) :
+    0 ≤ clampTop n i p top ∧ clampTop n i p top < n := by
+  unfold clampTop
+  by_cases h : i = n
+  · rw [if_pos ⟨h, hp⟩]; omega
+  · rw [if_neg (fun hc => h hc.1)]; omega
+end clamp
+
 end CMacVerif.Cartesian
